@@ -54,7 +54,7 @@ theorem const_of_many_agree (c : ℕ → F) (n : ℕ) (a : F) (ha : a ≠ 0) (S 
   have hc := congrArg (fun p => p.coeff j) hg
   simp only [g, coeff_sub, coeff_C_mul, finsetSum_coeff, coeff_X_pow, coeff_zero] at hc
   rw [Finset.sum_eq_single j] at hc
-  · have hCv : (C v : F[X]).coeff j = 0 := coeff_C_ne_zero (by omega)
+  · have hCv : (C v : F[X]).coeff j = 0 := coeff_C_of_ne_zero (by omega)
     rw [hCv] at hc
     simp only [if_true, mul_one, sub_zero] at hc
     exact (mul_eq_zero.mp hc).resolve_left ha
@@ -77,7 +77,7 @@ theorem eval_point_sensitive_coset (k : ℕ) (hk1 : 1 ≤ k) (hk4 : k ≤ 4) (cs
     (hcard : 2 ^ k ≤ S.card) :
     ∀ j, 1 ≤ j → j < 2 ^ k → evalL (split k cs j) (x ^ 2 ^ k) = 0 := by
   have ha : ((2 ^ k : ℕ) : Felt) ≠ 0 := by
-    rw [Nat.cast_pow]; exact pow_ne_zero _ (by simpa using two_felt_ne_zero)
+    rw [Nat.cast_pow]; exact pow_ne_zero _ (by exact_mod_cast two_felt_ne_zero)
   apply const_of_many_agree (fun j => evalL (split k cs j) (x ^ 2 ^ k)) (2 ^ k) _ ha S v _ hcard
   intro b hb
   have h1 := hS b hb
